@@ -17,9 +17,11 @@ TECHNIQUE = ("exhaustive fault-placement enumeration (every subset of <= k compo
 LEVEL_TEXT = ("Every placement of <= 2 (quick) / <= 3 (thorough) faults from {deliberate skip, content error, failed command, timeout, "
               "ValueError, exception whose class defines __eq__} on every node of 9 graph shapes (implementation -> registry point -> "
               "parser (single / multi-output, continue_on_error on/off) -> combiner -> rule, diamonds, spec-less datasources, plain "
-              "components), with skip recording on and off and with raising observers, is executed by the real engine. Oracle: no "
+              "components), with skip recording on and off, with raising observers, under a HostContext in the main thread (SIGALRM timeouts armed) "
+              "and followed by a second evaluation of the same component objects with the faults healed, is executed by the real engine. Oracle: no "
               "exception escapes, every node gets its observer turn, unaffected components produce the reference value, every raised "
-              "exception instance is recorded (with traceback) under an allowed key and nothing else is recorded.")
+              "exception instance is recorded (with traceback) under an allowed key, nothing else is recorded, no timeout alarm stays armed "
+              "and the healed evaluation is complete and records nothing.")
 LEVEL_NOTE = ("Bounded by the shape family and fault count. A content error (subclass of the skip signal) is required to be recorded only "
               "where the component has somewhere documented to record it (plugin types: itself; datasource: the specs it implements).")
 RULE = ("(9 hand-written graph shapes + every typed DAG with <= 4/5 nodes over {datasource, registry point, parser, combiner, plain} "
@@ -190,7 +192,12 @@ def check_case(case):
     try:
         n = len(nodes)
         names = [c.__name__ for c in g.nodes]
-        broker = g.make_broker()
+        extra = None
+        if case.get("host"):
+            # collection on a host: datasources run under a HostContext in the main thread and arm a SIGALRM timeout
+            from insights.core.context import HostContext
+            extra = {HostContext: HostContext()}
+        broker = g.make_broker(extra=extra)
         obs_calls = []
         if case["observer"] != "none":
             def bad_observer(comp, b):
@@ -212,12 +219,20 @@ def check_case(case):
                     broker.add_observer(bad_observer, T)
         graph = g.explicit_graph()
         # (1) nothing escapes
+        import signal
         try:
             dr.run(graph, broker)
         except BaseException as ex:
+            signal.alarm(0)
             V("escape:exception-escapes-run", "dr.run returns", "%s: %s" % (type(ex).__name__, ex),
               escaping=type(ex).__name__)
             return vio
+        # a timeout alarm that is still pending when the evaluation has returned will fire in whatever runs then - an
+        # unrelated component of a later evaluation, or the caller: the failure of one component would reach far
+        # beyond its dependents (read and disarmed here through the OS interface, so the harness is never hit)
+        pending = signal.alarm(0)
+        if pending:
+            V("escape:timeout-alarm-left-armed", {"pending_alarm_s": 0}, {"pending_alarm_s": pending})
         turns = [ev[1] for ev in g.log if ev[0] == "turn"]
         for i in range(n):
             if turns.count(i) != 1:
@@ -395,6 +410,17 @@ def run_unit(unit, tier):
                 case = {"shape": unit["shape"], "nodes": nodes, "store_skips": unit["store_skips"], "observer": unit["observer"]}
                 if unit["observer"] == "none" and 1 <= k <= 2:
                     case["heal"] = True
+                if unit["observer"] == "none" and k <= 1 and any(nd["t"] == "datasource" for nd in base):
+                    hc = dict(case, host=True)
+                    hc.pop("heal", None)
+                    try:
+                        hv = check_case(hc)
+                    except Exception:
+                        import traceback
+                        hv = [("harness:raises", "no exception", traceback.format_exc()[-900:], {})]
+                    res.case(nontrivial=k > 0, outcome="host|%s|%s" % (",".join(sorted(set(v[0] for v in hv))), hc.pop("_outcome", "?")))
+                    for v in hv:
+                        res.violation(v[0], hc, v[1], v[2], v[3])
                 try:
                     vio = check_case(case)
                     fired = None
